@@ -218,10 +218,16 @@ impl<'a> Context<'a> {
         call: &Term<Jmp>,
         extern_symbol: &ExternSymbol,
     ) -> State {
+        // The addresses of stack parameters are relative to the stack pointer value at the call instruction,
+        // but the stack pointer of `new_state` may already be adjusted to its value after the call (on x86).
+        let stack_register = &self.project.stack_pointer_register;
+        let stack_pointer_after_call = new_state.get_register(stack_register);
+        new_state.set_register(stack_register, state.get_register(stack_register));
         self.log_debug(
             new_state.clear_stack_parameter(extern_symbol, &self.project.runtime_memory_image),
             Some(&call.tid),
         );
+        new_state.set_register(stack_register, stack_pointer_after_call);
         let calling_conv = self.project.get_calling_convention(extern_symbol);
         let mut possible_referenced_ids = BTreeSet::new();
         if extern_symbol.parameters.is_empty() && extern_symbol.return_values.is_empty() {
